@@ -12,8 +12,10 @@ Definition has_left (e : entry) : bool :=
 Definition has_right (e : entry) : bool :=
   match e_action e with ASame | AChange | AAdd => true | ADelete => false end.
 
-(* ---- documents that are real Python data: a dict / set has unique keys,
-   and keys / members are plain (untagged) scalars ---- *)
+(* ---- documents that are real loaded Python data: a dict / set has unique
+   keys, keys / members are plain (untagged) scalars, and a set carries no
+   explicit tag (ruamel builds a CommentedSet only from `!!set`, whose tag it
+   does not record: CommentedSet.tag.value is None) ---- *)
 Definition plain_leaf (n : node) : bool :=
   match n with NLeaf i _ => match tag i with None => true | Some _ => false end | _ => false end.
 Definition leaf_value (n : node) : pyval := match n with NLeaf _ v => v | _ => PNone end.
@@ -33,7 +35,9 @@ Fixpoint wf_doc (n : node) : bool :=
             match l with [] => true | kv :: r => wf_doc (snd kv) && go r end) kvs
   | NSeq _ els =>
       (fix go (l : list node) : bool := match l with [] => true | x :: r => wf_doc x && go r end) els
-  | NSet _ els => forallb plain_leaf els && nodup_vals (map leaf_value els)
+  | NSet i els =>
+      match tag i with None => true | Some _ => false end &&
+      (forallb plain_leaf els && nodup_vals (map leaf_value els))
   end.
 
 (* ---- equal as data: mapping key order is not data, sequence order is;
@@ -71,21 +75,6 @@ Fixpoint data_eq (a b : node) {struct a} : bool :=
       tag_eqb (tag i) (tag j) && Nat.eqb (List.length els) (List.length els') &&
       forallb (fun x => existsb (fun y => py_eq (leaf_value x) (leaf_value y)) els') els
   | _, _ => false
-  end.
-
-(* no explicit YAML tag anywhere (keys included) *)
-Fixpoint untagged (n : node) : bool :=
-  match tag (node_info n) with
-  | Some _ => false
-  | None =>
-      match n with
-      | NLeaf _ _ => true
-      | NMap _ kvs =>
-          (fix go (l : list (node * node)) : bool :=
-             match l with [] => true | kv :: r => untagged (fst kv) && untagged (snd kv) && go r end) kvs
-      | NSeq _ els => (fix go (l : list node) : bool := match l with [] => true | x :: r => untagged x && go r end) els
-      | NSet _ els => (fix go (l : list node) : bool := match l with [] => true | x :: r => untagged x && go r end) els
-      end
   end.
 
 (* ---- leaves: the scalar values of a document (mapping keys are not leaves;
@@ -139,14 +128,14 @@ Definition covers_right (R : node) (es : list entry) : Prop :=
   forall l i v, lookup R l = Some (NLeaf i v) ->
     exists e, In e es /\ has_right e = true /\ is_prefix (e_loc e) l.
 
-(* ---- the one place where the (repaired) code still loses a leaf: a null
-   scalar facing a container that has content (known finding).
-   [faces_ok]: at no location do the two documents hold such a pair.
-   [null_safe]: a computable sufficient condition, inherited by every pair of
-   sub-documents: the first document has no null leaf, or the second is not a
-   container with content. ---- *)
+(* ---- the one place where the (repaired) code still reports nothing for a
+   null: a null DOCUMENT (the root) against a container that has content.
+   Deliberate: Python None at the root is how an empty document arrives
+   ("document vs nothing" lists only the other side's children; pinned by the
+   CLI tests test_simple_diff_*_from_nothing / _into_nothing).  A null that has
+   a parent is data and is deleted / added like any other scalar.
+   [root_guard]: the two ROOTS are not such a pair. ---- *)
 Definition is_null_leaf (n : node) : bool := match n with NLeaf _ PNone => true | _ => false end.
-Definition has_null_leaf (n : node) : bool := existsb is_null_leaf (leaves n).
 
 Definition has_content (n : node) : bool :=
   match n with
@@ -157,48 +146,13 @@ Definition has_content (n : node) : bool :=
   end.
 
 Definition clash_ok (a b : node) : Prop := ~ (is_null_leaf a = true /\ has_content b = true).
-
-Definition faces_ok (L R : node) : Prop :=
-  forall l a b, lookup L l = Some a -> lookup R l = Some b -> clash_ok a b /\ clash_ok b a.
-
-Definition null_safe (a b : node) : bool := negb (has_null_leaf a && has_content b).
+Definition clash_b (a b : node) : bool := negb (is_null_leaf a && has_content b).
+Definition root_guard (L R : node) : bool := clash_b L R && clash_b R L.
 
 (* the diff shows a difference *)
 Definition shows_difference (es : list entry) : bool :=
   existsb (fun e => match e_action e with ASame => false | _ => true end) es.
 
-(* ---- the computable form of [faces_ok]: walk the two documents along their
-   common locations (mapping values by key, sequence elements by position; set
-   members are scalars) and test every facing pair ---- *)
-Definition clash_b (a b : node) : bool := negb (is_null_leaf a && has_content b).
-
-Fixpoint faces_b (a b : node) {struct a} : bool :=
-  clash_b a b && clash_b b a &&
-  match a, b with
-  | NMap _ kvs, NMap _ kvs' =>
-      (fix go (l : list (node * node)) : bool :=
-         match l with
-         | [] => true
-         | kv :: r =>
-             match assoc_key (leaf_value (fst kv)) kvs' with
-             | Some w => faces_b (snd kv) w
-             | None => true
-             end && go r
-         end) kvs
-  | NSeq _ els, NSeq _ els' =>
-      (fix go (l l' : list node) {struct l} : bool :=
-         match l, l' with
-         | x :: r, y :: r' => faces_b x y && go r r'
-         | _, _ => true
-         end) els els'
-  | _, _ => true
-  end.
-
-(* ---- a guard for the same finding that does not depend on which values the
-   comparison pairs up (the synchronised modes pair elements of different
-   positions): no null scalar in the first document, or the second document
-   is flat (none of its values is a container with content); and the two roots
-   do not clash themselves.  Inherited by every pair (child, child). ---- *)
 Definition children (n : node) : list node :=
   match n with
   | NLeaf _ _ => []
@@ -206,8 +160,6 @@ Definition children (n : node) : list node :=
   | NSeq _ els => els
   | NSet _ els => els
   end.
-Definition flat (n : node) : bool := forallb (fun c => negb (has_content c)) (children n).
-Definition null_guard (a b : node) : bool := clash_b a b && (negb (has_null_leaf a) || flat b).
 
 (* ---- "differ as data, sequence order disregarded in the synchronised
    modes": the equivalence a uniform pair of options (--arrays am, --aoh hm)
@@ -259,13 +211,17 @@ Definition list_mode (am : arr_opt) (hm : aoh_opt) (rels : list node) : lmode :=
 Definition unkeyed (hm : aoh_opt) : bool := match hm with AohKey | AohDeep => false | _ => true end.
 
 (* identity-key modes: the identity key of a list pair is the first key of the
-   first right-hand record; a record's identity value is the scalar it holds
-   under that key *)
+   first right-hand record; a record's identity value is the plain (untagged)
+   scalar it holds under that key *)
 Definition first_key (els : list node) : option pyval :=
   match els with NMap _ ((k, _) :: _) :: _ => Some (leaf_value k) | _ => None end.
 Definition id_val (K : pyval) (x : node) : option pyval :=
   match x with
-  | NMap _ kvs => match assoc_key K kvs with Some (NLeaf _ v) => Some v | _ => None end
+  | NMap _ kvs =>
+      match assoc_key K kvs with
+      | Some (NLeaf i v) => match tag i with None => Some v | Some _ => None end
+      | _ => None
+      end
   | _ => None
   end.
 Definition id_or_none (K : pyval) (x : node) : pyval :=
